@@ -43,7 +43,7 @@ Definition expected_canReturnEarly_skeleton : list (string * string) :=
   [("if", "successes[i] < successThreshold && conflictFailures[i] < failureThreshold");
    ("return", "false"); ("return", "true")]%string.
 Definition expected_fanout_decisions : list (string * string) :=
-  [("if", "resp.err != nil"); ("if", "params.alreadyReplicated"); ("if", "!hasMore");
+  [("if", "resp.err != nil"); ("if", "params.alreadyReplicated"); ("return", "stats, ctx.Err()"); ("if", "!hasMore");
    ("if", "failures[i] >= failureThreshold"); ("return", "stats, writeErrors.ErrOrNil()");
    ("if", "resp.err != nil");
    ("if", "canReturnEarly(successes, conflictFailures, successThreshold, failureThreshold)");
@@ -76,6 +76,30 @@ Fixpoint loop (q ft : Z) (st : list sst) (rs : list resp) : fo_result :=
 Definition fanout (n : nat) (q ft : Z) (rs : list resp) : option fo_result :=
   Some (loop q ft (repeat sst0 n) rs).
 
+(* ---- the same loop with the forward timeout ----
+   `select { case <-ctx.Done(): return stats, ctx.Err(); case resp, hasMore := <-responses: ... }`:
+   the inputs of the loop are responses and, at any position, the ctx.Done
+   event (forward timeout / cancellation); running out of events = the channel
+   was closed. A peer that never answers simply contributes no response, so
+   with hung peers the channel is never closed and the events end with ECtxDone. *)
+Inductive event := EResp (r : resp) | ECtxDone.
+Inductive ev_result := EvAck | EvFail | EvTimedOut.   (* EvTimedOut: the error is ctx.Err() *)
+
+Definition ev_of (r : fo_result) : ev_result := match r with Ack => EvAck | Fail => EvFail end.
+
+Fixpoint loop_ev (q ft : Z) (st : list sst) (evs : list event) : ev_result :=
+  match evs with
+  | [] => ev_of (finish ft st)
+  | ECtxDone :: _ => EvTimedOut
+  | EResp r :: evs' =>
+      let st' := apply_resp st r in
+      if can_return_early q ft st' then ev_of (finish ft st') else loop_ev q ft st' evs'
+  end.
+
+(* responses of the peers that answer, then the timeout if some peer hangs *)
+Definition events_of (rs : list resp) (hang : bool) : list event :=
+  map EResp rs ++ (if hang then [ECtxDone] else []).
+
 (* ---- whole request ---- *)
 Definition placed (place : list (list nat)) (s r : nat) : nat := nth r (nth s place []) 0%nat.
 Definition ids_of (place : list (list nat)) (node r : nat) : list nat :=
@@ -99,6 +123,18 @@ Definition handle (rf rep : Z) (place : list (list nat)) (ws : list write) : opt
     | Some Ack => Some OAck
     | Some Fail => Some OFail
     | None => None
+    end.
+
+(* the request when some forwarded writes never answer (hang = true) *)
+Definition handle_ev (rf rep : Z) (place : list (list nat)) (ws : list write) (hang : bool) : option outcome :=
+  if Nat.eqb (List.length place) 0 then Some OAck
+  else if rep >? rf then Some OBadReplica
+  else
+    let q := success_threshold rf rep in
+    let ft := failureThreshold_expr (n_replicas rf rep) q in
+    match loop_ev q ft (repeat sst0 (List.length place)) (events_of (resps_of place ws) hang) with
+    | EvAck => Some OAck
+    | EvFail | EvTimedOut => Some OFail      (* ctx.Err() is answered with the default arm: a failure *)
     end.
 
 (* ---- distributeTimeseriesToReplicas ----
@@ -280,8 +316,10 @@ Definition quorum_everywhere (n : nat) (q : Z) (rs : list resp) : bool :=
 
 (* ---- correspondence and predicate ---- *)
 Inductive case :=
-| CAck (rf rep : Z) (place : list (list nat)) (ws : list write)
+| CAck (rf rep : Z) (place : list (list nat)) (ws : list write) (hung : list (nat * nat))
        (obs_ids : list (list nat)) (obs_responses : list nat) (status : Z) (delivered : nat).
+(* ws: the writes that were answered, in arrival order; hung: the (node, replica)
+   writes whose peer never answered *)
 
 Definition outcome_of_status (st : Z) : outcome :=
   if st =? 200 then OAck else if st =? 400 then OBadReplica else OFail.
@@ -293,18 +331,21 @@ Definition write_dest (w : write) : dest := fst w.
 (* the writes that produced responses are exactly the model's groups (as a set:
    the Go map has no order), each carries the group's series ids, and each
    produced exactly one response *)
+Definition dests_match_list (gs : list (dest * list nat)) (ds : list dest) : bool :=
+  Nat.eqb (List.length gs) (List.length ds)
+  && forallb (fun g => existsb (fun d => dest_eqb d (fst g)) ds) gs
+  && forallb (fun d => existsb (fun g => dest_eqb d (fst g)) gs) ds.
 Definition dests_match (gs : list (dest * list nat)) (ws : list write) : bool :=
-  Nat.eqb (List.length gs) (List.length ws)
-  && forallb (fun g => existsb (fun w => dest_eqb (write_dest w) (fst g)) ws) gs
-  && forallb (fun w => existsb (fun g => dest_eqb (write_dest w) (fst g)) gs) ws.
+  dests_match_list gs (map write_dest ws).
 
 Definition corr_ok (c : case) : bool :=
   match c with
-  | CAck rf rep place ws obs_ids obs_responses status delivered =>
-      option_eqb outcome_eqb (handle rf rep place ws) (Some (outcome_of_status status))
+  | CAck rf rep place ws hung obs_ids obs_responses status delivered =>
+      option_eqb outcome_eqb (handle_ev rf rep place ws (match hung with [] => false | _ => true end))
+                 (Some (outcome_of_status status))
       && ((rep >? rf) ||
           (let gs := distribute place (replicas_of rf rep) in
-           dests_match gs ws
+           dests_match_list gs (map write_dest ws ++ hung)
            && list_eqb (option_eqb (list_eqb Nat.eqb)) (map (fun w => group_ids gs (write_dest w)) ws) (map Some obs_ids)
            && list_eqb (list_eqb Nat.eqb) (map fst (resps_of place ws)) obs_ids
            && forallb (Nat.eqb 1) obs_responses))
@@ -314,7 +355,7 @@ Definition corr_ok (c : case) : bool :=
    responses that had been delivered when the handler returned *)
 Definition pred_ok (c : case) : bool :=
   match c with
-  | CAck rf rep place ws obs_ids obs_responses status delivered =>
+  | CAck rf rep place ws hung obs_ids obs_responses status delivered =>
       if (status =? 200) && negb (rep >? rf) then
         quorum_everywhere (List.length place) (spec_threshold rf rep) (firstn delivered (resps_of place ws))
       else true
